@@ -67,24 +67,26 @@ func c15Batch(rng *rand.Rand, n int, flags []bool, where string, col, row int, r
 	byteRowsOf := func(rows int) int { return (rows + 7) / 8 }
 	switch where {
 	case "payload", "check":
-		// the matrix travels in chunks of 512 rows, one message per chunk, column-major inside a chunk
-		msg := row / 512
-		rowsIn := n - 512*msg
-		if rowsIn > 512 {
-			rowsIn = 512
+		// the matrix travels in chunks of cr rows (512 at the pinned commit; measured), one message per chunk,
+		// column-major inside a chunk
+		cr := iknpChunkRowsMemoOr512()
+		msg := row / cr
+		rowsIn := n - cr*msg
+		if rowsIn > cr {
+			rowsIn = cr
 		}
 		br := byteRowsOf(rowsIn)
 		if where == "check" {
-			msg = (n + 511) / 512
+			msg = (n + cr - 1) / cr
 			br = byteRowsOf(256)
 		} else {
-			row = row % 512
+			row = row % cr
 		}
 		p.rIO.mu.Lock()
 		base := len(p.rIO.sentData)
 		p.rIO.mu.Unlock()
 		p.rIO.tamper = func(idx int, b []byte) []byte {
-			if idx == base+msg {
+			if idx == base+msg && col*br+row/8 < len(b) {
 				b[col*br+row/8] ^= 1 << uint(row%8)
 			}
 			return b
@@ -179,6 +181,9 @@ func c15Main(args []string) error {
 	percent := 2.0
 	if len(args) > 3 {
 		fmt.Sscan(args[3], &percent)
+	}
+	if _, err := iknpChunkRows(); err != nil {
+		return err
 	}
 	rng := rand.New(rand.NewSource(seed()*29996224275833 + 15))
 	idx := 0
